@@ -118,6 +118,25 @@ func (l *slowLocker) Lock() {
 }
 func (l *slowLocker) Unlock() { l.mu.Unlock() }
 
+// slowQ delays the mutating queue calls a little (contract-abiding: only slower).
+type slowQ struct{ quartz.JobQueue }
+
+func spin(d time.Duration) {
+	for t := time.Now(); time.Since(t) < d; {
+	}
+}
+func (q *slowQ) Push(j quartz.ScheduledJob) error { spin(40 * time.Microsecond); return q.JobQueue.Push(j) }
+func (q *slowQ) Remove(k *quartz.JobKey) (quartz.ScheduledJob, error) {
+	j, err := q.JobQueue.Remove(k)
+	spin(40 * time.Microsecond)
+	return j, err
+}
+func (q *slowQ) Pop() (quartz.ScheduledJob, error) {
+	j, err := q.JobQueue.Pop()
+	spin(20 * time.Microsecond)
+	return j, err
+}
+
 func linRun(args []string) int {
 	fs := flag.NewFlagSet("lin", flag.ExitOnError)
 	seed := fs.Int64("seed", 1, "")
@@ -138,6 +157,10 @@ func linRun(args []string) int {
 			q = quartz.NewJobQueue()
 		}
 		mode := h % 3
+		if h%4 == 3 { // a slow queue widens the windows between the queue calls of one API method
+			q = &slowQ{JobQueue: q}
+			qkind += "+slow"
+		}
 		var locker sync.Locker = &sync.Mutex{}
 		if h%2 == 0 {
 			locker = &slowLocker{}
